@@ -248,12 +248,19 @@ func (n *ChanNode) Quiesce(chid datatransfer.ChannelID) (datatransfer.ChannelSta
 		e int
 	}
 	var hist []obs
-	for i := 0; i < 12; i++ {
+	fails := 0
+	for i := 0; i < 14; i++ {
 		ctx, cancel := context.WithTimeout(context.Background(), 5*time.Second)
 		st, err = n.Ch.GetByID(ctx, chid)
 		cancel()
 		if err != nil {
-			return nil, err
+			// a flush queued behind an event that brings the channel's state machine down (e.g. a record that cannot be encoded) is never
+			// answered: it runs into its deadline; the next one finds the machine gone and reads the store directly
+			if fails++; fails >= 3 {
+				return nil, err
+			}
+			hist = nil
+			continue
 		}
 		hist = append(hist, obs{string(n.DS.Raw(DSKey(chid))), n.Env.Total()})
 		k := len(hist)
